@@ -387,6 +387,11 @@ theorem framing_prefix_ewkb' (bnd : BoundFn) (d : Dest) (o : Order) (srid p : Na
     rd32_u32' _ _ _ hp]
   cases coerce bnd d (canon g) <;> rfl
 
+/-- no hex framing is detected ⇒ `Scan` leaves the caller's buffer as it was -/
+theorem scanBuf_raw (a b : UInt8) (t : Bytes) (h92 : a ≠ 92) (h48 : a ≠ 48) :
+    scanBuf (a :: b :: t) = a :: b :: t := by
+  simp [scanBuf, h92, h48]
+
 theorem framing_prefix_wkb_partial' (bnd : BoundFn) (d : Dest) (o : Order) (p : Nat) (g : G) (hw : WF32 g)
     (hp : p < 2^32) (h0 : p % 256 ≠ 0) (h1 : p % 256 ≠ 1) (h2 : p % 256 ≠ 48) (h3 : p % 256 ≠ 92) :
     wkbScan bnd d (u32 .little p ++ encGeom o 0 g) =
@@ -403,7 +408,11 @@ theorem framing_prefix_wkb_partial' (bnd : BoundFn) (d : Dest) (o : Order) (p : 
       (by simp only [List.length_cons, hn]; omega)]
     exact scanDest_badhdr bnd d _ _ (ofNat_mod_ne p 0 (by decide) h0) (ofNat_mod_ne p 1 (by decide) h1)
       (by simp only [List.length_cons, he]; omega)
-  simp only [wkbScan, hscan, sliceFrom_append _ _ _ (u32_length .little p),
+  have hbuf : scanBuf (u32 .little p ++ encGeom o 0 g) = u32 .little p ++ encGeom o 0 g := by
+    rw [hu]
+    simp only [List.cons_append, List.nil_append]
+    exact scanBuf_raw _ _ _ (ofNat_mod_ne p 92 (by decide) h3) (ofNat_mod_ne p 48 (by decide) h2)
+  simp only [wkbScan, hscan, hbuf, sliceFrom_append _ _ _ (u32_length .little p),
     scan_table' bnd d o 0 g hw (by decide)]
   cases coerce bnd d (canon g) <;> rfl
 
